@@ -225,6 +225,13 @@ func (db *DB) loadSchema(of Object) (s *Schema, err error) {
 			return
 		}
 
+		// a stored schema always comes with its index, we must not build
+		// a new one out of field descriptors we have not verified yet
+		if s.ObjectIndex == nil {
+			err = fmt.Errorf("%s %w", path, ErrMissingObjIndex)
+			return
+		}
+
 		// we initialize schema from object
 		if err = s.initialize(db, of); err != nil {
 			return
